@@ -69,6 +69,8 @@ class TypeMap:
         s = self.NS_RE.sub('', s)
         s = re.sub(r"'\\x([0-9a-fA-F]+)'", lambda m: str(int(m.group(1), 16)), s)
         s = re.sub(r"'\\(\d+)'", lambda m: str(int(m.group(1), 8)), s)
+        # integer template arguments: the literal suffix depends on how the argument was deduced (4 vs 4UL), the value does not
+        s = re.sub(r'(?<![\w.])(\d+)(?:[uU][lL]{0,2}|[lL]{1,2}[uU]?)(?![\w.])', r'\1', s)
         s = strip_cv(s)
         # pointer / reference suffixes
         m = re.match(r'^(.*?)(\s*(\*|&&|&)\s*(const)?)$', s)
